@@ -132,6 +132,53 @@ func labelFromRequest(c *core.Ctx, fn *ssa.Function, v ssa.Value, want string, d
 		return false
 	}
 	par, isPar := an.Unwrap(v).(*ssa.Parameter)
+	if !isPar && depth < 2 && an.PrivateHelper(fn) && strings.HasPrefix(ap, "p:") {
+		// a field of a parameter of a private helper (`storeVerdict(ev *Event)` labelling with ev.ID): the
+		// id is what the call sites pass, with the same field path appended
+		name, rest := ap[2:], ""
+		if i := strings.IndexAny(name, ".["); i >= 0 {
+			name, rest = name[:i], name[i:]
+		}
+		idx := -1
+		for i, p := range fn.Params {
+			if p.Name() == name {
+				idx = i
+			}
+		}
+		if idx < 0 || rest == "" {
+			return false
+		}
+		sites := 0
+		for _, g := range libFuncs(c) {
+			for _, site := range callsTo(g, fn) {
+				sites++
+				if idx >= len(site.Call.Args) {
+					return false
+				}
+				full := an.PathOf(site.Call.Args[idx]) + rest
+				m := labelRe.FindStringSubmatch(full)
+				if m == nil || m[2] != want {
+					return false
+				}
+				okParam := false
+				groot := g
+				for groot.Parent() != nil {
+					groot = groot.Parent()
+				}
+				for _, f := range []*ssa.Function{g, groot} {
+					for _, p := range f.Params {
+						if tn := typeNameOf(p.Type()); p.Name() == m[1] && (tn == "ClientMsg" || strings.HasPrefix(tn, "Client")) {
+							okParam = true
+						}
+					}
+				}
+				if !okParam {
+					return false
+				}
+			}
+		}
+		return sites > 0
+	}
 	if !isPar || depth >= 2 || !an.PrivateHelper(fn) {
 		return false
 	}
